@@ -137,3 +137,79 @@ func ConnectWS(a, b erpc.Peer, sub erpc.ProtoFunc, prep func(ca, cb *memconn.Con
 	}
 	return l, nil
 }
+
+// RawWS is the client end of a websocket connection whose handshake was done by the real client
+// code; afterwards the harness writes raw bytes (hand-built frames) and collects what the server writes.
+type RawWS struct {
+	c    *memconn.Conn
+	mu   sync.Mutex
+	buf  []byte
+	eof  bool
+	done chan struct{}
+}
+
+func (r *RawWS) Write(b []byte) { r.c.Write(b) }
+
+// Received returns what the server wrote since the handshake and whether it closed.
+func (r *RawWS) Received() ([]byte, bool) {
+	r.mu.Lock()
+	defer r.mu.Unlock()
+	return append([]byte(nil), r.buf...), r.eof
+}
+
+// Close closes the client end and waits for the collector.
+func (r *RawWS) Close() {
+	r.c.Close()
+	<-r.done
+}
+
+// ServeWSRaw lets peer b serve a websocket connection (mixer/websocket handler over an in-memory
+// connection, real handshake) and returns the raw client end plus b's session.
+func ServeWSRaw(b erpc.Peer, sub erpc.ProtoFunc) (*RawWS, erpc.Session, error) {
+	ca, cb := memconn.NewPair()
+	lis := &oneShotListener{c: make(chan net.Conn, 1), done: make(chan struct{}), addr: cb.LocalAddr()}
+	lis.c <- cb
+	srv := &http.Server{Handler: websocket.NewServeHandler(b, nil, sub)}
+	go srv.Serve(lis)
+	defer lis.Close()
+	cfg, err := ws.NewConfig("ws://"+cb.LocalAddr().String()+"/", "ws://"+ca.LocalAddr().String()+"/")
+	if err != nil {
+		return nil, nil, err
+	}
+	if _, err = ws.NewClient(cfg, ca); err != nil {
+		return nil, nil, fmt.Errorf("websocket handshake: %v", err)
+	}
+	r := &RawWS{c: ca, done: make(chan struct{})}
+	go func() {
+		defer close(r.done)
+		tmp := make([]byte, 32*1024)
+		for {
+			n, err := ca.Read(tmp)
+			r.mu.Lock()
+			r.buf = append(r.buf, tmp[:n]...)
+			if err != nil {
+				r.eof = true
+				r.mu.Unlock()
+				return
+			}
+			r.mu.Unlock()
+		}
+	}()
+	var sess erpc.Session
+	want := ca.LocalAddr().String()
+	ok := WaitUntil(10*time.Second, func() bool {
+		b.RangeSession(func(s erpc.Session) bool {
+			if strings.Contains(s.RemoteAddr().String(), want) {
+				sess = s
+				return false
+			}
+			return true
+		})
+		return sess != nil
+	})
+	if !ok {
+		r.Close()
+		return nil, nil, fmt.Errorf("server side websocket session did not appear")
+	}
+	return r, sess, nil
+}
